@@ -608,6 +608,25 @@ func registerIntrinsics(e *Engine) {
 		it := types.Typ[types.Int]
 		return e.ite(eq, it, int64(0), e.ite(lt, it, int64(-1), int64(1)))
 	}
+	// TrimRightFunc / TrimLeftFunc / TrimFunc with unicode.IsSpace on symbolic text: Go models
+	trimFunc := func(model string) intrinsic {
+		return func(e *Engine, fr *frame, args []Value, site ssa.CallInstruction) Value {
+			if _, sym := args[0].(*SymStr); sym {
+				if f, ok := args[1].(*ssa.Function); ok && f.String() == "unicode.IsSpace" {
+					switch model {
+					case "both":
+						return e.callModel("StringsTrimSpace", args[0])
+					default:
+						return e.callModel(model, args[0])
+					}
+				}
+			}
+			return e.callRaw(site.Common().StaticCallee(), args, nil, site)
+		}
+	}
+	r["strings.TrimRightFunc"] = trimFunc("StringsTrimRightSpace")
+	r["strings.TrimLeftFunc"] = trimFunc("StringsTrimLeftSpace")
+	r["strings.TrimFunc"] = trimFunc("both")
 	r["strings.TrimSpace"] = func(e *Engine, fr *frame, args []Value, site ssa.CallInstruction) Value {
 		if a, ok := argStr(args[0]); ok {
 			return strings.TrimSpace(a)
